@@ -58,6 +58,22 @@ func (c *vfGateObsCtx) StreamFinished(ObservedStream) {
 	c.sc.gates.Reach("obs_finished", c.req)
 }
 
+// vfHandshakeUnanswered: the driver reported that a node which answers every handshake frame did not answer.
+type vfHandshakeUnanswered struct{ err error }
+
+func (e vfHandshakeUnanswered) Error() string { return e.err.Error() }
+
+// vfHandshakeUnansweredTrace is the record of such a connection attempt: a request (the handshake) whose
+// response the node sent and the driver had 10 s to deliver.
+func vfHandshakeUnansweredTrace(kind string, proto int) []map[string]interface{} {
+	tr := vfNewTracer()
+	tr.Emit("env_conn", "conn", 1, "cap", 0, "proto", proto, "kind", kind+":handshake")
+	tr.Emit("call", "req", 1, "conn", 1, "fate", "handshake")
+	tr.Emit("env_expect_resp", "req", 1)
+	tr.Emit("ret", "req", 1, "conn", 1, "outcome", "timeout", "echo", "", "tok", "handshake")
+	return tr.Events()
+}
+
 func vfNewGateEnv(kind string, proto int, coalesce bool) (*vfGateEnv, error) {
 	e := &vfGateEnv{sc: vfNewScope(), hold: map[string]bool{}, pend: map[string]func(){}, pendStream: map[string]int{}}
 	e.tr = e.sc.tr
@@ -128,6 +144,16 @@ func vfNewGateEnv(kind string, proto int, coalesce bool) (*vfGateEnv, error) {
 	}
 	e.sc.BindSession(s)
 	conn, err := s.connect(s.ctx, s.ring.allHosts()[0], h)
+	if err != nil && strings.Contains(err.Error(), "no response to connection startup") {
+		// the scripted node answers every handshake frame at once: try again with a timeout no machine
+		// load explains; if the driver still sees no answer, that is an outcome, not a set-up problem
+		s.connCfg.ConnectTimeout = 10 * time.Second
+		conn, err = s.connect(s.ctx, s.ring.allHosts()[0], h)
+		if err != nil && strings.Contains(err.Error(), "no response to connection startup") {
+			s.Close()
+			return nil, vfHandshakeUnanswered{err}
+		}
+	}
 	if err != nil {
 		s.Close()
 		return nil, err
@@ -630,6 +656,18 @@ func TestVfConnGates(t *testing.T) {
 					continue
 				}
 				e, err := vfNewGateEnv("gate:"+name, proto, coalesce)
+				if _, unanswered := err.(vfHandshakeUnanswered); unanswered {
+					out, cerr := vfCreateNDJSON(vfOutPath(fmt.Sprintf("conn_g%02d.ndjson", k)))
+					if cerr != nil {
+						t.Fatal(cerr)
+					}
+					for _, ev := range vfHandshakeUnansweredTrace("gate:"+name, proto) {
+						out.Write(ev)
+					}
+					out.Close()
+					k++
+					continue
+				}
 				if err != nil {
 					t.Fatalf("VFHARNESS %v", err)
 				}
